@@ -32,7 +32,7 @@ func c20Client(prefix []int, mode string, variant string) explore.Outcome {
 		r.Start()
 		cl, err := r.Connect()
 		if err != nil {
-			viol = append(viol, V("harness", "%v", err))
+			viol = append(viol, V("setup-handshake-fails", "setting the scenario up with well-behaved peers fails: %v", err))
 			return
 		}
 		vsched.Quiesce()
@@ -110,7 +110,7 @@ func c20Server(prefix []int, variant string) explore.Outcome {
 		switch variant {
 		case "session-object":
 			if err := rp.Handshake(); err != nil {
-				viol = append(viol, V("harness", "%v", err))
+				viol = append(viol, V("setup-handshake-fails", "setting the scenario up with well-behaved peers fails: %v", err))
 				return
 			}
 			vsched.Quiesce()
@@ -141,7 +141,7 @@ func c20Server(prefix []int, variant string) explore.Outcome {
 			})
 		case "notify-vs-streams":
 			if err := rp.Handshake(); err != nil {
-				viol = append(viol, V("harness", "%v", err))
+				viol = append(viol, V("setup-handshake-fails", "setting the scenario up with well-behaved peers fails: %v", err))
 				return
 			}
 			rp.OpenStream()
